@@ -688,6 +688,7 @@ func runC16(cfg Config) {
 		}
 	}
 	c16LargeChunks(cfg, rep, rng)
+	c16WindowChunks(cfg, rep, rng)
 	rep.Write(cfg.Out)
 }
 
